@@ -153,6 +153,7 @@ func replayCmd(c *core.Ctx, f []string) {
 // cmdCases runs every combination of the flags of the four commands once.
 func cmdCases(c *core.Ctx) {
 	k := 0
+	forceErr := -1 // >= 0: a record in error is put at that position (clipped), whatever the draw says
 	one := func(cmd string, fl []kv) {
 		k++
 		outmode := "stdout"
@@ -191,7 +192,13 @@ func cmdCases(c *core.Ctx) {
 			}
 			recs = append(recs, t.Dump())
 		}
-		if c.G.Chance(0.2) {
+		if forceErr >= 0 {
+			i := forceErr
+			if i > len(recs) {
+				i = len(recs)
+			}
+			recs = append(recs[:i:i], append([]string{"ERR"}, recs[i:]...)...)
+		} else if c.G.Chance(0.2) {
 			i := c.G.Intn(len(recs) + 1)
 			recs = append(recs[:i:i], append([]string{"ERR"}, recs[i:]...)...)
 		}
@@ -231,6 +238,22 @@ func cmdCases(c *core.Ctx) {
 	}
 	one("resolve", nil)
 	one("resolve", nil)
+	// every command on a file with a record in error: first, and after one or more good trees (the earlier
+	// trees are written, the exit status is not 0) — round 7: the random 20 % left some commands without one
+	for _, pos := range []int{0, 1, 3} {
+		forceErr = pos
+		one("length", []kv{{"l", core.Rat(float64(1+c.G.Intn(16)) / 8)}})
+		one("support", []kv{{"s", core.Rat(float64(1+c.G.Intn(16)) / 16)}})
+		one("depth", []kv{{"m", "2"}, {"M", strconv.Itoa(2 + c.G.Intn(2))}})
+		one("resolve", nil)
+	}
+	forceErr = -1
+	// --root and --tips together, on thresholds that select tips and root branches (each flag must act
+	// whatever the other says)
+	for i := 0; i < 3; i++ {
+		one("length", []kv{{"l", core.Rat(float64(4+c.G.Intn(12)) / 8)}, {"root", "1"}, {"tips", "1"}})
+		one("depth", []kv{{"m", "1"}, {"M", strconv.Itoa(1 + c.G.Intn(3))}, {"root", "1"}, {"tips", "1"}})
+	}
 	// rooted (and unrooted) trees with EXACTLY ONE multifurcation of the smallest kind: the branch count is
 	// the one of a binary unrooted tree, so no shortcut by counting branches may skip them
 	for i := 0; i < 4; i++ {
